@@ -24,7 +24,11 @@ def copy_value(data):
     to avoid multiple initialize to modify the same default data
     """
     if multi(data):
-        return type(data)([copy_value(d) for d in data])
+        items = [copy_value(d) for d in data]
+        if isinstance(data, tuple) and hasattr(data, "_fields"):
+            # a named tuple is built from its items one by one, not from one list of them
+            return type(data)(*items)
+        return type(data)(items)
     elif isinstance(data, dict):
         return {k: copy_value(v) for k, v in data.items()}
     return data
